@@ -263,6 +263,9 @@ pub fn run_pipeline(
         // above.
         if !capture {
             cmd_result = _cr;
+        } else {
+            // the captured text is kept; the status is the real one
+            cmd_result.status = _cr.status;
         }
     }
     (term_given, cmd_result)
